@@ -29,6 +29,10 @@ def repo_facts():
     i_up = _pos(w, 'self.backend.upload_stream', i_else)
     i_done2 = _pos(w, '_chunk_done(chunk)', i_up)
     assert w.count('_chunk_done(chunk)') == 2
+    # the only source of "exists" is the backend, asked now (nothing remembered from an earlier command or another chunk)
+    assigns = [n for n in ast.walk(worker) if isinstance(n, (ast.Assign, ast.AnnAssign, ast.AugAssign, ast.NamedExpr))
+               and any(isinstance(t, ast.Name) and t.id == 'exists' for t in ast.walk(n.targets[0] if isinstance(n, ast.Assign) else n.target))]
+    assert len(assigns) == 1 and ast.unparse(assigns[0]) == 'exists = await self._exists(chunk.location)', 'exists must come from the backend only'
     out.append('Definition fact_worker_checks_then_uploads_then_records : bool := true.')
     s = ast.unparse(snap)
     i_gather = _pos(s, 'await asyncio.gather(*(_worker() for _ in range(self._concurrent)))')
